@@ -578,15 +578,11 @@ def run(ctx):
                     for clean in ((True, False) if (near or ctx.thorough)
                                   else (True,)):
                         combos.append((dim, solid, clean, o))
-        for i in range(0, len(combos), 150):
-            sjobs.append((mod, name, combos[i:i + 150], ctx.thorough))
+        for i in range(0, len(combos), 60):
+            sjobs.append((mod, name, combos[i:i + 60], ctx.thorough))
         # tier B: default and distance-1 deviations (distance 2 thorough),
         # dims and solids chosen so that each supported combination appears
         devs = hamming_configs(menu, 2 if ctx.thorough else 1)
-        if not ctx.thorough:
-            # quick: the default plus one residue class (mod 4, rotating
-            # with the seed) of the distance-1 deviations
-            devs = [devs[0]] + devs[1:][ctx.seed % 4::4]
         for o in devs:
             if ctx.thorough or not o:
                 cases = [(2, False), (2, True), (1, False), (3, False)]
@@ -664,7 +660,7 @@ def run(ctx):
                     'options (capped: booleans full x others distance 1) x '
                     'dim 1-3 x with/without a solid x clean; tier B: compile '
                     '+ 2 steps for every configuration within Hamming '
-                    'distance 1 (quick: the default in 4 dim/solid cases plus one residue class mod 4 of the deviations, rotating with the seed) / 2 (thorough) of the default; '
+                    'distance 1 (quick: the default in 4 dim/solid cases, every deviation in 2-D with a solid) / 2 (thorough) of the default; '
                     'non-trivial = configurations the scheme accepts')
     assumptions = ['constructor raising ValueError/NotImplementedError for a '
                    'dim/option combination = combination not documented as '
